@@ -5,6 +5,7 @@ package c16
 // development mode on the text files of the edited templates.
 
 import (
+	"bufio"
 	"bytes"
 	"context"
 	"fmt"
@@ -35,6 +36,8 @@ type tcase struct {
 	kinds  []string // edit kind of each step
 	typed  bool     // every version is expected to compile
 	seeded string   // non-empty for the documented reproductions
+	layout string   // "" regular file | filelink: the .templ file is a symlink to a file elsewhere | dirlink: the package directory is a symlink | relroot: relative TEMPL_DEV_MODE_ROOT
+	txtBase string  // base name of the template's text file
 
 	outs    []generator.GeneratorOutput // generator output of every version (same options as the handler)
 	goUpd   []bool                      // the handler's GoUpdated per version
@@ -71,6 +74,7 @@ import (
 	"os"
 	"sort"
 	"strings"
+	"time"
 
 	"github.com/a-h/templ"
 )
@@ -92,8 +96,60 @@ var envs = []env{
 	{s: "javascript:alert(1)", t: "", b: true, xs: []string{"x", "y", "z"}, cs: templ.ComponentScript{Name: "fn2", Function: "function fn2(){}", Call: "fn2()", CallInline: "fn2()"}},
 }
 
+// poll renders the named templates (first valuation) over and over with 2-20 ms pauses for the given time and
+// reports, per template, the last rendering and when the rendering changed.
+func poll(names []string, ms int) {
+	start := time.Now()
+	last := map[string]string{}
+	changes := map[string][]string{}
+	iters, maxGap := 0, time.Duration(0)
+	prev := start
+	e := envs[0]
+	for time.Since(start) < time.Duration(ms)*time.Millisecond {
+		for _, n := range names {
+			f := regA[n]
+			if f == nil {
+				continue
+			}
+			var buf bytes.Buffer
+			out := ""
+			if err := f(e.s, e.t, e.b, e.xs, e.at, e.cs).Render(context.Background(), &buf); err != nil {
+				out = "ERR " + hex.EncodeToString([]byte(err.Error()))
+			} else {
+				out = "OK " + hex.EncodeToString(buf.Bytes())
+			}
+			if out != last[n] {
+				last[n] = out
+				changes[n] = append(changes[n], fmt.Sprint(time.Since(start).Milliseconds()))
+			}
+		}
+		now := time.Now()
+		if g := now.Sub(prev); g > maxGap {
+			maxGap = g
+		}
+		prev = now
+		if iters == 0 {
+			fmt.Println("READY")
+		}
+		iters++
+		time.Sleep(time.Duration(2+(iters*7)%19) * time.Millisecond)
+	}
+	for _, n := range names {
+		fmt.Printf("P %s FINAL %s\n", n, last[n])
+		fmt.Printf("P %s CHANGES %s\n", n, strings.Join(changes[n], ","))
+	}
+	fmt.Printf("STATS %d %d\n", iters, maxGap.Milliseconds())
+}
+
 func main() {
 	side := os.Args[1]
+	if side == "P" {
+		b, _ := os.ReadFile(os.Args[2])
+		ms := 1500
+		fmt.Sscan(os.Args[3], &ms)
+		poll(strings.Fields(string(b)), ms)
+		return
+	}
 	reg := regA
 	if side == "B" {
 		reg = regB
@@ -217,6 +273,31 @@ func buildCases(c *core.Ctx, seeded bool, nPlain, nChains int) []*tcase {
 			}
 		}
 	}
+	// file-system layout as a dimension: one plain template and one text-only edit per layout, then a tenth of the random cases each
+	if seeded {
+		for _, l := range []string{"filelink", "dirlink", "relroot"} {
+			n1 := fmt.Sprintf("T%04d", len(cases)+1)
+			add(tcase{layout: l, typed: true, seeded: "layout " + l, chain: []string{"package a\n\ntempl " + n1 + "(" + params + ") {\n\t<p title=\"x\">Hello \"w\" { s }</p>\n}\n"}})
+			n2 := fmt.Sprintf("T%04d", len(cases)+1)
+			add(tcase{layout: l, typed: true, seeded: "layout " + l + ", text-only edit", kinds: []string{"text-edit"}, chain: []string{
+				"package a\n\ntempl " + n2 + "(" + params + ") {\n\t<p>one { s }</p>\n}\n",
+				"package a\n\ntempl " + n2 + "(" + params + ") {\n\t<p>two \\ \"2\" { s }</p>\n}\n"}})
+		}
+	}
+	defer func() {
+		for _, tc := range cases {
+			if tc.seeded == "" {
+				switch c.Rng.Intn(10) {
+				case 0:
+					tc.layout = "filelink"
+				case 1:
+					tc.layout = "dirlink"
+				case 2:
+					tc.layout = "relroot"
+				}
+			}
+		}
+	}()
 	for i := 0; i < nPlain; i++ {
 		body := randTemplate(c.Rng)
 		name := fmt.Sprintf("T%04d", len(cases)+1)
@@ -414,12 +495,17 @@ func shapeOf(codeOld, codeNew string) string {
 type renders map[string][]string // name -> per-valuation "OK <hex>" / "ERR"
 
 func runProg(prog, side, namesFile string, env []string) (renders, error) {
+	return runProgIn("", prog, side, namesFile, env)
+}
+
+func runProgIn(dir, prog, side, namesFile string, env []string) (renders, error) {
 	args := []string{side}
 	if namesFile != "" {
 		args = append(args, namesFile)
 	}
 	cmd := exec.Command(prog, args...)
 	cmd.Env = env
+	cmd.Dir = dir
 	var errb bytes.Buffer
 	cmd.Stderr = &errb
 	out, err := cmd.Output()
@@ -466,11 +552,13 @@ type tally struct {
 	first, skelEqual, textOnly, textOnlyChanged, templates, dropped, generated, unformattable int
 	firstOK, skelOK, critOK                               bool
 	perShape                                              map[string]int
+	polled                                                int
+	pollOK                                                bool
 }
 
 func experiment(c *core.Ctx) {
 	batches := c.N(1, 10)
-	t := &tally{firstOK: true, skelOK: true, critOK: true, perShape: map[string]int{}}
+	t := &tally{firstOK: true, skelOK: true, critOK: true, pollOK: true, perShape: map[string]int{}}
 	for bi := 0; bi < batches; bi++ {
 		if !oneBatch(c, t, bi, c.N(70, 250), c.N(230, 900)) {
 			return
@@ -481,6 +569,7 @@ func experiment(c *core.Ctx) {
 	c.Oblige("correspondence", "rendering: every chain the handler calls text-only satisfies the stated criterion (options, literal count, expression list)", t.critOK, "")
 	c.Oblige("correspondence", fmt.Sprintf("rendering: at most 3%% of the generated cases are rejected by the Go compiler (%d of %d)", t.dropped, t.generated), t.dropped*100 <= 3*t.generated, "")
 	c.Oblige("correspondence", "rendering: the event handler accepts every template the parser accepts", t.unformattable == 0, fmt.Sprint(t.unformattable, " rejected"))
+	c.Oblige("correspondence", fmt.Sprintf("schedule: programs rendering every 2-20 ms from before a text-only edit until 1.25 s after it end up rendering like a fresh build (%d templates)", t.polled), t.pollOK, "")
 	c.Extra["text_only_chains"] = t.textOnly
 	c.Extra["text_only_chains_rendering_differently_by_shape"] = t.perShape
 	c.Extra["text_only_chains_with_changed_skeleton"] = t.textOnlyChanged
@@ -497,10 +586,18 @@ func oneBatch(c *core.Ctx, t *tally, bi, nPlain, nChains int) bool {
 	}
 	defer os.RemoveAll(tmp)
 	tmp, _ = filepath.EvalSymlinks(tmp)
-	rootA, rootB := filepath.Join(tmp, "rootA"), filepath.Join(tmp, "rootB")
-	for _, d := range []string{"a", "b", "rootA", "rootB"} {
+	rootA, rootB, rootP := filepath.Join(tmp, "rootA"), filepath.Join(tmp, "rootB"), filepath.Join(tmp, "rootP")
+	const rootR = "rootR" // relative TEMPL_DEV_MODE_ROOT, resolved against the working directory tmp
+	for _, d := range []string{"a", "b", "real_al", "real_bl", "shared", "rootA", "rootB", "rootR", "rootP"} {
 		os.MkdirAll(filepath.Join(tmp, d), 0o755)
 	}
+	// package directories that are symbolic links
+	os.Symlink(filepath.Join(tmp, "real_al"), filepath.Join(tmp, "al"))
+	os.Symlink(filepath.Join(tmp, "real_bl"), filepath.Join(tmp, "bl"))
+	if wd, err := os.Getwd(); err == nil {
+		defer os.Chdir(wd)
+	}
+	os.Chdir(tmp)
 	os.WriteFile(filepath.Join(tmp, "go.mod"), []byte("module c16scratch\n\ngo 1.23.0\n\nrequire github.com/a-h/templ v0.0.0\n\nreplace github.com/a-h/templ => "+core.Repo()+"\n"), 0o644)
 	if sum, err := os.ReadFile(filepath.Join(core.Repo(), "go.sum")); err == nil {
 		os.WriteFile(filepath.Join(tmp, "go.sum"), sum, 0o644)
@@ -527,7 +624,7 @@ func oneBatch(c *core.Ctx, t *tally, bi, nPlain, nChains int) bool {
 		os.Setenv("TEMPL_DEV_MODE_ROOT", root)
 		return h.HandleEvent(ctx, fsnotify.Event{Name: file, Op: fsnotify.Write})
 	}
-	for _, pkg := range []string{"a", "b"} {
+	for _, pkg := range []string{"a", "b", "al", "bl"} {
 		os.WriteFile(filepath.Join(tmp, pkg, "helpers.go"), []byte("package "+pkg+helpersGo), 0o644)
 		if _, err := handle(filepath.Join(tmp, pkg, "helpers.templ"), "package "+pkg+"\n"+helpers, rootA); err != nil {
 			return fail("helper templates generate", err.Error())
@@ -539,6 +636,7 @@ func oneBatch(c *core.Ctx, t *tally, bi, nPlain, nChains int) bool {
 		for _, e := range ents {
 			if b, err := os.ReadFile(filepath.Join(rootA, e.Name())); err == nil {
 				os.WriteFile(filepath.Join(rootB, e.Name()), b, 0o644)
+				os.WriteFile(filepath.Join(tmp, rootR, e.Name()), b, 0o644)
 			}
 		}
 	}
@@ -551,11 +649,27 @@ func oneBatch(c *core.Ctx, t *tally, bi, nPlain, nChains int) bool {
 	var lkReq []drv.Req
 	var lkWant, lkSrc []string
 	for _, tc := range cases {
-		fa := filepath.Join(tmp, "a", strings.ToLower(tc.name)+".templ")
+		pa, pb := pkgOf(tc, "a"), pkgOf(tc, "b")
+		fa := filepath.Join(tmp, pa, strings.ToLower(tc.name)+".templ")
 		ga := strings.TrimSuffix(fa, ".templ") + "_templ.go"
+		fb := filepath.Join(tmp, pb, strings.ToLower(tc.name)+".templ")
+		if tc.layout == "filelink" {
+			// the template is shared: the file in the package directory is a link to a file elsewhere
+			for _, f := range []string{fa, fb} {
+				target := filepath.Join(tmp, "shared", filepath.Base(filepath.Dir(f))+"_"+filepath.Base(f))
+				os.WriteFile(target, nil, 0o644)
+				os.Symlink(target, f)
+			}
+		}
+		rootOwn := rootA
+		if tc.layout == "relroot" {
+			rootOwn = rootR
+		}
+		c.Hist("rendering: file-system layout " + map[string]string{"": "regular file, absolute root", "filelink": ".templ is a symlink to a file in another directory", "dirlink": "package directory is a symlink", "relroot": "relative TEMPL_DEV_MODE_ROOT"}[tc.layout])
 		tc.ok = true
 		for i, src := range tc.chain {
-			root := rootA
+			src = withPkg(src, pa)
+			root := rootOwn
 			if i > 0 {
 				root = rootB
 			}
@@ -613,6 +727,7 @@ func oneBatch(c *core.Ctx, t *tally, bi, nPlain, nChains int) bool {
 			}
 			// the text file the handler wrote = the model's file of the real literals; every index reads back
 			os.Setenv("TEMPL_DEV_MODE_ROOT", root)
+			tc.txtBase = filepath.Base(templruntime.GetDevModeTextFileName(fa))
 			txt, rerr := os.ReadFile(templruntime.GetDevModeTextFileName(fa))
 			if rerr != nil || string(txt) != strings.Join(out.Literals, "\n") {
 				fileOK = false
@@ -629,9 +744,8 @@ func oneBatch(c *core.Ctx, t *tally, bi, nPlain, nChains int) bool {
 		// put version 0 back in place; generate the last version as package b
 		os.WriteFile(ga, []byte(tc.codeA), 0o644)
 		if len(tc.chain) > 1 {
-			fb := filepath.Join(tmp, "b", strings.ToLower(tc.name)+".templ")
-			srcB := strings.Replace(tc.chain[len(tc.chain)-1], "package a\n", "package b\n", 1)
-			if _, err := handle(fb, srcB, rootA); err != nil {
+			srcB := withPkg(tc.chain[len(tc.chain)-1], pb)
+			if _, err := handle(fb, srcB, rootOwn); err != nil {
 				tc.ok = false
 				os.Remove(fa)
 				os.Remove(ga)
@@ -645,7 +759,7 @@ func oneBatch(c *core.Ctx, t *tally, bi, nPlain, nChains int) bool {
 			c.Hist("rendering: edit makes the fresh build fail to compile (decision compared only)")
 			os.Remove(ga)
 			if len(tc.chain) > 1 {
-				os.Remove(filepath.Join(tmp, "b", strings.ToLower(tc.name)+"_templ.go"))
+				os.Remove(filepath.Join(tmp, pb, strings.ToLower(tc.name)+"_templ.go"))
 			}
 		}
 	}
@@ -744,13 +858,13 @@ func oneBatch(c *core.Ctx, t *tally, bi, nPlain, nChains int) bool {
 		var ra, rb []string
 		for _, tc := range cases {
 			if tc.ok && tc.typed && !tc.dropped {
-				ra = append(ra, fmt.Sprintf("\t%q: a.%s,\n", tc.name, tc.name))
+				ra = append(ra, fmt.Sprintf("\t%q: %s.%s,\n", tc.name, pkgOf(tc, "a"), tc.name))
 				if len(tc.chain) > 1 {
-					rb = append(rb, fmt.Sprintf("\t%q: b.%s,\n", tc.name, tc.name))
+					rb = append(rb, fmt.Sprintf("\t%q: %s.%s,\n", tc.name, pkgOf(tc, "b"), tc.name))
 				}
 			}
 		}
-		reg := "package main\n\nimport (\n\t\"c16scratch/a\"\n\t\"c16scratch/b\"\n)\n\nvar _ = b.K\n\nvar regA = map[string]fn{\n" + strings.Join(ra, "") + "}\n\nvar regB = map[string]fn{\n" + strings.Join(rb, "") + "}\n"
+		reg := "package main\n\nimport (\n\t\"c16scratch/a\"\n\t\"c16scratch/al\"\n\t\"c16scratch/b\"\n\t\"c16scratch/bl\"\n)\n\nvar _, _, _, _ = a.K, b.K, al.K, bl.K\n\nvar regA = map[string]fn{\n" + strings.Join(ra, "") + "}\n\nvar regB = map[string]fn{\n" + strings.Join(rb, "") + "}\n"
 		os.WriteFile(filepath.Join(tmp, "main.go"), []byte(mainSrc), 0o644)
 		os.WriteFile(filepath.Join(tmp, "reg.go"), []byte(reg), 0o644)
 		cmd := exec.Command("go", "build", "-o", prog, ".")
@@ -766,7 +880,7 @@ func oneBatch(c *core.Ctx, t *tally, bi, nPlain, nChains int) bool {
 			fmt.Fprintln(os.Stderr, buildErr)
 		}
 		bad := map[string]bool{}
-		for _, m := range regexp.MustCompile(`[ab]/(t\d+)_templ\.go`).FindAllStringSubmatch(buildErr, -1) {
+		for _, m := range regexp.MustCompile(`[ab]l?/(t\d+)_templ\.go`).FindAllStringSubmatch(buildErr, -1) {
 			bad[strings.ToUpper(m[1])] = true
 		}
 		if len(bad) == 0 {
@@ -779,8 +893,8 @@ func oneBatch(c *core.Ctx, t *tally, bi, nPlain, nChains int) bool {
 					fmt.Fprintln(os.Stderr, "DROPPED", tc.name, tc.kinds, "\n"+tc.chain[0]+"\n=>\n"+tc.chain[len(tc.chain)-1])
 				}
 				c.Hist("rendering: generated code rejected by the Go compiler (dropped)")
-				os.Remove(filepath.Join(tmp, "a", strings.ToLower(tc.name)+"_templ.go"))
-				os.Remove(filepath.Join(tmp, "b", strings.ToLower(tc.name)+"_templ.go"))
+				os.Remove(filepath.Join(tmp, pkgOf(tc, "a"), strings.ToLower(tc.name)+"_templ.go"))
+				os.Remove(filepath.Join(tmp, pkgOf(tc, "b"), strings.ToLower(tc.name)+"_templ.go"))
 			}
 		}
 	}
@@ -815,10 +929,17 @@ func oneBatch(c *core.Ctx, t *tally, bi, nPlain, nChains int) bool {
 	dA, e3 := runProg(prog, "A", "", devEnv(rootA))
 	dB, e4 := runProg(prog, "B", "", devEnv(rootA))
 	xA, e5 := runProg(prog, "A", namesFile, devEnv(rootB))
-	for _, e := range []error{e1, e2, e3, e4, e5} {
+	// relative TEMPL_DEV_MODE_ROOT: the program runs in the directory the generator ran in
+	dAr, e6 := runProgIn(tmp, prog, "A", "", devEnv(rootR))
+	dBr, e7 := runProgIn(tmp, prog, "B", "", devEnv(rootR))
+	for _, e := range []error{e1, e2, e3, e4, e5, e6, e7} {
 		if e != nil {
 			return fail("scratch program runs", e.Error())
 		}
+	}
+
+	if !pollSchedule(c, t, tmp, prog, rootA, rootB, rootP, cases, nA, nB, devEnv) {
+		return false
 	}
 
 	for _, tc := range cases {
@@ -831,11 +952,17 @@ func oneBatch(c *core.Ctx, t *tally, bi, nPlain, nChains int) bool {
 			n, d renders
 			src string
 		}{{nA, dA, tc.chain[0]}}
+		if tc.layout == "relroot" {
+			sides[0].d = dAr
+		}
 		if last > 0 {
 			sides = append(sides, struct {
 				n, d renders
 				src string
 			}{nB, dB, tc.chain[last]})
+			if tc.layout == "relroot" {
+				sides[1].d = dBr
+			}
 		}
 		for _, s := range sides {
 			c.Count("tpl:" + s.src)
@@ -849,7 +976,7 @@ func oneBatch(c *core.Ctx, t *tally, bi, nPlain, nChains int) bool {
 							d = unhex(s.d[tc.name][i])
 						}
 						c.Fail("property", "rendering: development mode on the template's own text file = normal mode", "dev-differs-from-normal",
-							map[string]any{"template": abbr(s.src), "construction": tc.seeded, "valuation": i, "normal": abbr(unhex(s.n[tc.name][i])), "dev": abbr(d), "literal_lengths": litLens(tc.outs[0])}, "TEMPL_DEV_MODE=true renders different bytes from the normally generated code")
+							map[string]any{"template": abbr(s.src), "construction": tc.seeded, "file_system_layout": layoutDoc(tc.layout), "valuation": i, "normal": abbr(unhex(s.n[tc.name][i])), "dev": abbr(d), "literal_lengths": litLens(tc.outs[0])}, "TEMPL_DEV_MODE=true renders different bytes from the normally generated code")
 					}
 					break
 				}
@@ -954,4 +1081,131 @@ func litLens(o generator.GeneratorOutput) []int {
 		r[i] = len(l)
 	}
 	return r
+}
+
+func pkgOf(tc *tcase, side string) string {
+	if tc.layout == "dirlink" {
+		return side + "l"
+	}
+	return side
+}
+
+func withPkg(src, pkg string) string {
+	if strings.HasPrefix(src, "package a\n") {
+		return "package " + pkg + src[len("package a"):]
+	}
+	return src
+}
+
+func layoutDoc(l string) string {
+	switch l {
+	case "filelink":
+		return "pkg/x.templ is a symbolic link to shared/pkg_x.templ; x_templ.go is a regular file next to the link; absolute TEMPL_DEV_MODE_ROOT"
+	case "dirlink":
+		return "the package directory is a symbolic link to another directory; files inside are regular; absolute TEMPL_DEV_MODE_ROOT"
+	case "relroot":
+		return "regular files; TEMPL_DEV_MODE_ROOT=rootR (relative), generator and program both run in the module directory"
+	}
+	return "regular files; absolute TEMPL_DEV_MODE_ROOT"
+}
+
+// pollSchedule: a program that keeps rendering at 2-20 ms intervals from before a text-only edit until more than
+// a second after it must end up showing what a fresh build shows (the runtime may serve its cache for at most
+// 100 ms after the file's modification time, not for as long as it is being asked).
+func pollSchedule(c *core.Ctx, t *tally, tmp, prog, rootA, rootB, rootP string, cases []*tcase, nA, nB renders, devEnv func(string) []string) bool {
+	var sel []*tcase
+	for _, tc := range cases {
+		last := len(tc.chain) - 1
+		if !(tc.ok && tc.typed && !tc.dropped) || last == 0 || tc.layout == "relroot" || len(tc.chain[last]) > 20000 {
+			continue
+		}
+		text := true
+		for i := 1; i <= last; i++ {
+			text = text && !tc.goUpd[i]
+		}
+		if !text || shapeOf(tc.codeA, tc.codeB) != "skeleton-equal" || len(nA[tc.name]) == 0 || len(nB[tc.name]) == 0 ||
+			nA[tc.name][0] == nB[tc.name][0] || !strings.HasPrefix(nB[tc.name][0], "OK") {
+			continue
+		}
+		sel = append(sel, tc)
+		if len(sel) == c.N(8, 30) {
+			break
+		}
+	}
+	if len(sel) == 0 {
+		c.Oblige("correspondence", "schedule: a text-only edit with a visible effect is available to poll", false, "")
+		return true
+	}
+	ents, _ := os.ReadDir(rootA)
+	for _, e := range ents {
+		if b, err := os.ReadFile(filepath.Join(rootA, e.Name())); err == nil {
+			os.WriteFile(filepath.Join(rootP, e.Name()), b, 0o644)
+		}
+	}
+	var names []string
+	for _, tc := range sel {
+		names = append(names, tc.name)
+	}
+	nf := filepath.Join(tmp, "poll.txt")
+	os.WriteFile(nf, []byte(strings.Join(names, "\n")), 0o644)
+	time.Sleep(30 * time.Millisecond) // the old files' modification time lies clearly before the edit
+	const before, after = 250, 1250
+	cmd := exec.Command(prog, "P", nf, fmt.Sprint(before+after))
+	cmd.Env = devEnv(rootP)
+	stdout, err := cmd.StdoutPipe()
+	if err != nil || cmd.Start() != nil {
+		c.Oblige("correspondence", "schedule: polling program starts", false, fmt.Sprint(err))
+		return false
+	}
+	rd := bufio.NewReader(stdout)
+	final := map[string]string{}
+	changes := map[string]string{}
+	stats := ""
+	edited := false
+	for {
+		line, rerr := rd.ReadString('\n')
+		f := strings.Fields(line)
+		switch {
+		case len(f) == 1 && f[0] == "READY" && !edited:
+			edited = true
+			time.Sleep(before * time.Millisecond)
+			// the edit: the new text file replaces the old one in one step, as a finished write
+			for _, tc := range sel {
+				if b, err := os.ReadFile(filepath.Join(rootB, tc.txtBase)); err == nil {
+					tmpf := filepath.Join(rootP, tc.txtBase+".new")
+					os.WriteFile(tmpf, b, 0o644)
+					os.Rename(tmpf, filepath.Join(rootP, tc.txtBase))
+				}
+			}
+		case len(f) >= 3 && f[0] == "P" && f[2] == "FINAL":
+			final[f[1]] = strings.Join(f[3:], " ")
+		case len(f) >= 3 && f[0] == "P" && f[2] == "CHANGES":
+			changes[f[1]] = strings.Join(f[3:], " ")
+		case len(f) == 3 && f[0] == "STATS":
+			stats = f[1] + " rounds, longest gap " + f[2] + " ms"
+		}
+		if rerr != nil {
+			break
+		}
+	}
+	cmd.Wait()
+	ok := true
+	for _, tc := range sel {
+		last := len(tc.chain) - 1
+		c.Count("poll:" + tc.chain[0] + "\x00" + tc.chain[last])
+		c.Hist("schedule: polled across a text-only edit")
+		if final[tc.name] != nB[tc.name][0] {
+			ok = false
+			if c.NFails("schedule: a program polled at 2-20 ms intervals shows the edit within a second") < 4 {
+				c.Fail("property", "schedule: a program polled at 2-20 ms intervals shows the edit within a second", "dev-text-stale-after-edit",
+					map[string]any{"old": abbr(tc.chain[0]), "new": abbr(tc.chain[last]), "schedule": fmt.Sprintf("render every 2-20 ms; text file replaced %d ms after the first round; rendering continues for %d ms after that (%s)", before, after, stats),
+						"rendering_changed_at_ms": changes[tc.name], "fresh": abbr(unhex(nB[tc.name][0])), "watch_final": abbr(unhex(final[tc.name])), "file_system_layout": layoutDoc(tc.layout)},
+					"more than a second after a text-only edit the running development-mode program still does not render what a fresh build renders")
+			}
+		}
+	}
+	t.polled += len(sel)
+	t.pollOK = t.pollOK && ok
+	c.Extra["schedule_poll"] = map[string]any{"templates": len(sel), "stats": stats, "edit_at_ms": before, "observed_until_ms": before + after}
+	return true
 }
